@@ -1,5 +1,5 @@
-//! Object-safe access to the 15 hash types (plus extra Skein output sizes) through their public `digest` API.
-use digest::generic_array::typenum::{U1, U128, U129, U20, U200, U32, U33, U64, U65, U8};
+//! Object-safe access to the 15 hash types (plus 18 more Skein output sizes) through their public `digest` API.
+use digest::generic_array::typenum::{U1, U128, U129, U16, U20, U200, U28, U32, U33, U48, U64, U65, U8};
 use digest::generic_array::GenericArray;
 use digest::{BlockInput, Digest, FixedOutput, FixedOutputDirty, Reset, Update};
 
@@ -143,7 +143,8 @@ use skein_hash::{Skein1024, Skein256, Skein512};
 counter_impl!(
     Blake224, Blake256, Blake384, Blake512, Groestl224, Groestl256, Groestl384, Groestl512, Jh224, Jh256, Jh384, Jh512,
     Skein256<U32>, Skein512<U64>, Skein1024<U128>, Skein256<U64>, Skein512<U20>, Skein1024<U8>, Skein256<U128>,
-    Skein256<U1>, Skein256<U33>, Skein512<U65>, Skein1024<U129>, Skein512<U200>
+    Skein256<U1>, Skein256<U33>, Skein512<U65>, Skein1024<U129>, Skein512<U200>,
+    Skein256<U16>, Skein256<U20>, Skein256<U28>, Skein512<U16>, Skein512<U28>, Skein512<U32>, Skein512<U48>, Skein1024<U48>, Skein1024<U64>
 );
 
 #[derive(Clone, Copy, Debug, PartialEq, Eq)]
@@ -164,7 +165,7 @@ pub struct HashType {
     pub dispatching: bool,
 }
 
-pub const TYPES: [HashType; 24] = [
+pub const TYPES: [HashType; 33] = [
     HashType { name: "Blake224", family: Family::Blake, block: 64, out: 28, dispatching: true },
     HashType { name: "Blake256", family: Family::Blake, block: 64, out: 32, dispatching: true },
     HashType { name: "Blake384", family: Family::Blake, block: 128, out: 48, dispatching: true },
@@ -191,6 +192,17 @@ pub const TYPES: [HashType; 24] = [
     HashType { name: "Skein512_65", family: Family::Skein, block: 64, out: 65, dispatching: false },
     HashType { name: "Skein1024_129", family: Family::Skein, block: 128, out: 129, dispatching: false },
     HashType { name: "Skein512_200", family: Family::Skein, block: 64, out: 200, dispatching: false },
+    // the remaining output sizes the Skein paper names (128, 160, 224, 256, 384, 512 bits): an implementation may treat
+    // exactly these specially (precomputed chaining values)
+    HashType { name: "Skein256_16", family: Family::Skein, block: 32, out: 16, dispatching: false },
+    HashType { name: "Skein256_20", family: Family::Skein, block: 32, out: 20, dispatching: false },
+    HashType { name: "Skein256_28", family: Family::Skein, block: 32, out: 28, dispatching: false },
+    HashType { name: "Skein512_16", family: Family::Skein, block: 64, out: 16, dispatching: false },
+    HashType { name: "Skein512_28", family: Family::Skein, block: 64, out: 28, dispatching: false },
+    HashType { name: "Skein512_32", family: Family::Skein, block: 64, out: 32, dispatching: false },
+    HashType { name: "Skein512_48", family: Family::Skein, block: 64, out: 48, dispatching: false },
+    HashType { name: "Skein1024_48", family: Family::Skein, block: 128, out: 48, dispatching: false },
+    HashType { name: "Skein1024_64", family: Family::Skein, block: 128, out: 64, dispatching: false },
 ];
 
 pub fn type_index(name: &str) -> Option<usize> {
@@ -222,7 +234,16 @@ pub fn new_hash(idx: usize) -> Box<dyn HashObj> {
         20 => Box::new(Skein256::<U33>::default()),
         21 => Box::new(Skein512::<U65>::default()),
         22 => Box::new(Skein1024::<U129>::default()),
-        _ => Box::new(Skein512::<U200>::default()),
+        23 => Box::new(Skein512::<U200>::default()),
+        24 => Box::new(Skein256::<U16>::default()),
+        25 => Box::new(Skein256::<U20>::default()),
+        26 => Box::new(Skein256::<U28>::default()),
+        27 => Box::new(Skein512::<U16>::default()),
+        28 => Box::new(Skein512::<U28>::default()),
+        29 => Box::new(Skein512::<U32>::default()),
+        30 => Box::new(Skein512::<U48>::default()),
+        31 => Box::new(Skein1024::<U48>::default()),
+        _ => Box::new(Skein1024::<U64>::default()),
     }
 }
 
@@ -252,6 +273,15 @@ pub fn oneshot(idx: usize, data: &[u8]) -> Vec<u8> {
         20 => Skein256::<U33>::digest(data).to_vec(),
         21 => Skein512::<U65>::digest(data).to_vec(),
         22 => Skein1024::<U129>::digest(data).to_vec(),
-        _ => Skein512::<U200>::digest(data).to_vec(),
+        23 => Skein512::<U200>::digest(data).to_vec(),
+        24 => Skein256::<U16>::digest(data).to_vec(),
+        25 => Skein256::<U20>::digest(data).to_vec(),
+        26 => Skein256::<U28>::digest(data).to_vec(),
+        27 => Skein512::<U16>::digest(data).to_vec(),
+        28 => Skein512::<U28>::digest(data).to_vec(),
+        29 => Skein512::<U32>::digest(data).to_vec(),
+        30 => Skein512::<U48>::digest(data).to_vec(),
+        31 => Skein1024::<U48>::digest(data).to_vec(),
+        _ => Skein1024::<U64>::digest(data).to_vec(),
     }
 }
